@@ -176,11 +176,17 @@ func (p *partition) IsExpire() bool {
 	p.log.Queue().GC() // try gc old data in queue
 
 	opt := p.shard.Database().GetOption()
-	ahead, _ := opt.GetAcceptWritableRange()
+	ahead, behind := opt.GetAcceptWritableRange()
+	// late data of the family is accepted as long as it is not older than behind,
+	// the log must survive until then(a new log would restart the sequence which the family already recorded).
+	writable := ahead
+	if behind > writable {
+		writable = behind
+	}
 	timeRange := p.family.TimeRange()
 	now := timeutil.Now()
 	// add 15 minute buffer
-	if timeRange.End+ahead+15*timeutil.OneMinute > now {
+	if timeRange.End+writable+15*timeutil.OneMinute > now {
 		return false
 	}
 	// partition is expired, check if all write ahead logs have been replicated
